@@ -21,7 +21,7 @@ import time
 import numpy as np
 
 from .. import tlc
-from ..params_replay import Drift, Replayer, fmt_step, run_path
+from ..params_replay import Ambiguous, Drift, Replayer, fmt_step, run_path
 
 LEVEL = "model_checking"
 
@@ -291,6 +291,7 @@ def run(ctx):
             ctx.cov["transitions"] += len(path) - 1
         ctx.count(len(files), distinct_key=("sim", conf["name"]))
     ctx.part("simulated_behaviours", replayed=nsim, depth=sim_depth)
+    ctx.assume("behaviours are not followed beyond a state in which a polar parameter has modulus zero and the implementation's phase differs from the model's (atan2 of signed zeros)")
     ctx.cov["traces_validated_against_impl"] = replayed + nsim
 
     coll.report(ctx)
@@ -507,7 +508,11 @@ def step_from(rep, snap_u, st_u, step, on_fail):
     fails = rep.observe(action, args, snap_u, snap, st_u)
     for ob, msg in fails:
         on_fail("observer", ob, msg)
-    diffs = rep.compare(snap, st)
+    try:
+        diffs = rep.compare(snap, st)
+    except Ambiguous:
+        rep.ambiguous = getattr(rep, "ambiguous", 0) + 1
+        return False
     if diffs:
         on_fail("projection", "Projection", "; ".join(diffs[:3]))
         return False
